@@ -1,5 +1,5 @@
 From Coq Require Import Extraction ExtrOcamlBasic ZArith.
-From Oxia.KeyOrder Require Import Model Proofs SortedMap KvModel.
+From Oxia.KeyOrder Require Import Model Proofs SortedMap KvModel BatchModel.
 Extraction "keyorder_model.ml"
   cmp_slash spec_cmp
   separator successor effective_sep effective_succ immediate_successor abbreviated_key split_configured
@@ -7,4 +7,5 @@ Extraction "keyorder_model.ml"
   key_sort
   sm_empty sm_get sm_put sm_delete sm_delete_range sm_floor sm_ceiling sm_lower sm_higher sm_range sm_sortedb
   kv_get_equal kv_get_floor kv_get_ceiling kv_get_lower kv_get_higher kv_range_scan kv_range_scan_reverse kv_find_lower
+  batch_stream batch_stream_failed
   Z.of_N. (* Z.of_N only so that the shared conv.ml.in finds the extracted type z *)
